@@ -131,16 +131,15 @@ def step_lint(log):
     return not bad
 
 
-def step_harness_build(log, tags="verif"):
+def step_harness_build(prop, outdir, log, tags="verif"):
+    """Compile the property's own harness package (harness/<cxx>/) against REPO's working tree."""
     with Lock("harness"):
         shutil.copyfile(os.path.join(REPO, "go.sum"), os.path.join(HARNESS, "go.sum"))
-        rc, out = sh([GO_HARNESS, "test", "-c", "-tags", tags, "-o", os.path.join(BUILD, "harness.test"), "."],
+        pkg = "./" + PROPS[prop].get("pkg", prop.lower())
+        rc, out = sh([GO_HARNESS, "test", "-c", "-tags", tags, "-o", os.path.join(outdir, "harness.test"), pkg],
                      cwd=HARNESS, timeout=1500)
-        log.append("[harness build] rc=%d\n%s" % (rc, out[-6000:]))
-        if rc == 0:
-            # private copy so that a concurrent rebuild cannot swap the binary under a running check
-            return True
-        return False
+        log.append("[harness build %s] rc=%d\n%s" % (pkg, rc, out[-6000:]))
+        return rc == 0 and os.path.exists(os.path.join(outdir, "harness.test"))
 
 
 def step_harness_run(test, outdir, seed, n, tier, replay, log, timeout, extra_env=None):
@@ -154,9 +153,16 @@ def step_harness_run(test, outdir, seed, n, tier, replay, log, timeout, extra_en
     if extra_env:
         env.update(extra_env)
     rc, out = sh([os.path.join(outdir, "harness.test"), "-test.run", "^%s$" % test, "-test.timeout", "%ds" % timeout,
-                  "-test.v"], cwd=HARNESS, env=env, timeout=timeout + 30)
+                  "-test.v"], cwd=os.path.join(HARNESS, PROPS_PKG(test)), env=env, timeout=timeout + 30)
     log.append("[harness %s seed=%s n=%s] rc=%d\n%s" % (test, seed, n, rc, out[-6000:]))
     return rc == 0, out
+
+
+def PROPS_PKG(test):
+    for pid, c in PROPS.items():
+        if test in c.get("tests", []):
+            return c.get("pkg", pid.lower())
+    return "."
 
 
 RES = re.compile(r"^(R_\w+) =\s*(.*?)\n\s+: ", re.M | re.S)
@@ -308,11 +314,7 @@ def main(argv):
                                                          "axioms": [], "unprinted": [], "refuted": [], "partial": [], "rc": 1}
     proofs_ok = gen_ok and lint_ok and make_ok and pr["ok"]
 
-    hb_ok = step_harness_build(log)
-    if hb_ok:
-        with Lock("harness"):
-            shutil.copyfile(os.path.join(BUILD, "harness.test"), os.path.join(outdir, "harness.test"))
-            os.chmod(os.path.join(outdir, "harness.test"), 0o755)
+    hb_ok = step_harness_build(prop, outdir, log)
 
     findings = load_findings(prop)
     open_f = [f for f in findings if f.get("status") == "open"]
